@@ -145,7 +145,7 @@ func runC11(r *rt.Runner) {
 		p := p
 		r.Case("cut/pinned", func(c *rt.C) { cutProgram(c, p, "cut-pinned:"+p) })
 	}
-	nCut := r.N(1500, 60000)
+	nCut := r.N(2500, 60000)
 	for k := 0; k < nCut; k++ {
 		r.Case("cut/generated", func(c *rt.C) {
 			var prog []ref.Tok
